@@ -22,7 +22,7 @@ PER_RENDER_CLASSES = {
 }
 MUTATORS = {'append', 'extend', 'insert', 'pop', 'remove', 'clear',
             'update', 'setdefault', 'popitem', 'sort', 'reverse',
-            '__setitem__', '__delitem__'}
+            '__setitem__', '__delitem__', '_push', '_pop'}
 
 
 def _cg(model):
@@ -101,15 +101,107 @@ def render_functions(model):
     return out
 
 
+def _shared_aliases(model, rfuncs, sc):
+    """where -> {local or parameter name: description} for names that may be
+    bound to an attribute object of a shared template / tag: `x = self.a`
+    inside a method of a shared class, and parameters that receive such a
+    value (or `self.a` itself) at a call site in render code (fixpoint)."""
+    shared_cls_ids = set(sc)
+    al = {}
+
+    def self_attr(e):
+        if isinstance(e, ast.Subscript):
+            e = e.value
+        return isinstance(e, ast.Attribute) and \
+            isinstance(e.value, ast.Name) and e.value.id == 'self'
+    for fi in rfuncs:
+        if fi.cls is None or id(fi.cls) not in shared_cls_ids:
+            continue
+        for n in own_nodes(fi.node):
+            if isinstance(n, ast.Assign) and len(n.targets) == 1 and \
+                    isinstance(n.targets[0], ast.Name) and \
+                    self_attr(n.value):
+                al.setdefault(fi.where, {})[n.targets[0].id] = \
+                    f'{norm(n.value)} of the shared {sc[id(fi.cls)][0]}'
+    changed = True
+    rounds = 0
+    by_where = {f.where: f for f in rfuncs}
+    while changed and rounds < 6:
+        changed = False
+        rounds += 1
+        for fi in rfuncs:
+            mine = al.get(fi.where, {})
+            in_shared = fi.cls is not None and id(fi.cls) in shared_cls_ids
+            for n in own_nodes(fi.node):
+                if not isinstance(n, ast.Call):
+                    continue
+                for t in model.resolve_callee(n.func, fi):
+                    if t[0] != 'func' or t[1].where not in by_where:
+                        continue
+                    callee = t[1]
+                    ps = callee.params()
+                    off = 1 if (callee.cls is not None and
+                                ps[:1] == ['self']) else 0
+                    for i, a in enumerate(n.args):
+                        desc = None
+                        if isinstance(a, ast.Name) and a.id in mine:
+                            desc = mine[a.id]
+                        elif in_shared and self_attr(a):
+                            desc = f'{norm(a)} of the shared ' \
+                                   f'{sc[id(fi.cls)][0]}'
+                        if desc is None or i + off >= len(ps):
+                            continue
+                        d = al.setdefault(callee.where, {})
+                        if ps[i + off] not in d:
+                            d[ps[i + off]] = desc + f' (passed by ' \
+                                                    f'{fi.where})'
+                            changed = True
+    return al
+
+
 def shared_writes(model):
     """-> list of dict(fi, node, target, kind) for every store, in render
     code, to an attribute / item of a shared object."""
     sc = shared_classes(model)
     shared_cls_ids = set(sc)
     out = []
-    for fi in render_functions(model):
+    rfuncs = render_functions(model)
+    aliases = _shared_aliases(model, rfuncs, sc)
+    for fi in rfuncs:
         in_shared = fi.cls is not None and id(fi.cls) in shared_cls_ids
+        al = aliases.get(fi.where, {})
         for n in own_nodes(fi.node):
+            # stores / mutations through a local or parameter that may be
+            # bound to an attribute object of a shared template / tag
+            if al:
+                tg = []
+                if isinstance(n, ast.Assign):
+                    tg = n.targets
+                elif isinstance(n, (ast.AugAssign, ast.AnnAssign)):
+                    tg = [n.target]
+                elif isinstance(n, ast.Delete):
+                    tg = n.targets
+                for t in tg:
+                    for x in ([t] if not isinstance(t, (ast.Tuple, ast.List))
+                              else t.elts):
+                        if isinstance(x, (ast.Attribute, ast.Subscript)) \
+                                and isinstance(x.value, ast.Name) and \
+                                x.value.id in al:
+                            out.append(dict(
+                                fi=fi, node=n, target=norm(x),
+                                kind=('store through `%s`, which may be '
+                                      'bound to %s') % (x.value.id,
+                                                        al[x.value.id])))
+                if isinstance(n, ast.Call) and \
+                        isinstance(n.func, ast.Attribute) and \
+                        n.func.attr in MUTATORS and \
+                        isinstance(n.func.value, ast.Name) and \
+                        n.func.value.id in al:
+                    out.append(dict(
+                        fi=fi, node=n, target=norm(n.func.value),
+                        kind=('mutation through `%s`, which may be bound '
+                              'to %s') % (n.func.value.id,
+                                          al[n.func.value.id])))
             tgts = []
             if isinstance(n, ast.Assign):
                 tgts = n.targets
